@@ -841,3 +841,342 @@ func loopExitTargets(c *core.Ctx) {
 	}
 	c.Stat("loop_exit_patch_sites", n)
 }
+
+// ---------------------------------------------------------------------------
+// jsonCodecAndModuleEncodeTheSameThing: json.marshal and the json codec agree
+// only if they hand the same Go value to encoding/json.  One marshalling the
+// script object (its MarshalJSON) and the other obj.Interface() disagree on
+// every type whose two renderings differ (byte_slice, buffer, nil, time).
+func jsonCodecAndModuleEncodeTheSameThing(c *core.Ctx) {
+	p := c.P
+	form := func(fn *ssa.Function) []string {
+		var out []string
+		seen := map[*ssa.Function]bool{}
+		var walk func(f *ssa.Function, d int)
+		walk = func(f *ssa.Function, d int) {
+			if f == nil || f.Blocks == nil || seen[f] || d > 2 {
+				return
+			}
+			seen[f] = true
+			for _, b := range f.Blocks {
+				for _, in := range b.Instrs {
+					call, ok := in.(*ssa.Call)
+					if !ok {
+						continue
+					}
+					cal := call.Call.StaticCallee()
+					if cal == nil {
+						continue
+					}
+					if cal.Pkg != nil && cal.Pkg.Pkg.Path() == "encoding/json" && strings.HasPrefix(cal.Name(), "Marshal") && len(call.Call.Args) > 0 {
+						viaInterface := core.DependsOn(call.Call.Args[0], func(w ssa.Value) bool {
+							ic, ok := w.(*ssa.Call)
+							return ok && ic.Call.IsInvoke() && ic.Call.Method.Name() == "Interface"
+						})
+						if viaInterface {
+							out = append(out, "obj.Interface()")
+						} else {
+							out = append(out, "the object itself")
+						}
+					} else if core.RepoFunc(cal) && cal.Pkg == f.Pkg {
+						walk(cal, d+1)
+					}
+				}
+			}
+		}
+		walk(fn, 0)
+		sort.Strings(out)
+		return dedup(out)
+	}
+	var encF, marF *ssa.Function
+	for _, fn := range repoFns(p, "builtins") {
+		if fn.Name() == "encodeJSON" {
+			encF = fn
+		}
+	}
+	if p.HasPkg("modules/json") {
+		for _, fn := range repoFns(p, "modules/json") {
+			if fn.Name() == "Marshal" && fn.Parent() == nil {
+				marF = fn
+			}
+		}
+	}
+	if encF == nil || marF == nil {
+		core.Undecidedf("builtins.encodeJSON / modules/json.Marshal not found")
+	}
+	a, b := form(encF), form(marF)
+	c.Check(len(a) > 0 && strings.Join(a, ",") == strings.Join(b, ","), "json|codec-and-module-marshal-the-same-value", p.Pos(encF.Pos()),
+		"the json codec hands encoding/json "+strings.Join(a, ", ")+" and json.marshal hands it "+strings.Join(b, ", ")+ifs(strings.Join(a, ",") != strings.Join(b, ","), ": the two renderings of a value differ for byte_slice, buffer, nil and time values, so the codec and the module disagree"))
+}
+
+// ---------------------------------------------------------------------------
+// stringBytesAreNotCharacters: s[i] of a Go string is a byte.  Converting it to
+// a rune to stand for "the character" (after testing len(s) == 1, which counts
+// bytes) rejects or mangles every character outside ASCII; the character is
+// what utf8.DecodeRuneInString or a []rune conversion yields.
+func stringBytesAreNotCharacters(c *core.Ctx) {
+	p := c.P
+	n, sites := 0, 0
+	for _, fn := range repoFns(p) {
+		if fn.Pkg == nil {
+			continue
+		}
+		rel := core.RelPkg(fn.Pkg.Pkg)
+		if rel != "object" && rel != "builtins" && !strings.HasPrefix(rel, "modules/") {
+			continue
+		}
+		for _, b := range fn.Blocks {
+			for _, in := range b.Instrs {
+				cv, ok := in.(*ssa.Convert)
+				if !ok {
+					continue
+				}
+				db, ok := cv.Type().Underlying().(*types.Basic)
+				if !ok || db.Kind() != types.Int32 {
+					continue
+				}
+				sb, ok := cv.X.Type().Underlying().(*types.Basic)
+				if !ok || sb.Kind() != types.Uint8 {
+					continue
+				}
+				sites++
+				var src ssa.Value
+				switch x := cv.X.(type) {
+				case *ssa.Lookup:
+					src = x.X
+				case *ssa.Index:
+					src = x.X
+				}
+				if src == nil || !core.IsStringType(src.Type()) {
+					continue
+				}
+				n++
+				c.Check(false, core.SSAName(fn)+"|string-byte-used-as-character", p.Pos(cv.Pos()),
+					fn.Name()+" converts a byte of a string to a rune: for any character outside ASCII that is its first UTF-8 byte, not the character")
+			}
+		}
+	}
+	c.Pass("interpreter|byte-to-rune-conversions", "", sprintf("%d byte-to-rune conversions in object, builtins and modules, %d of them of a string element", sites, n))
+	c.Stat("byte_to_rune_conversions", sites)
+}
+
+// ---------------------------------------------------------------------------
+// virtualCwdStaysAbsolute: every relative path a script supplies is resolved
+// against VirtualOS.cwd before the mount lookup.  The methods of the virtual OS
+// therefore keep cwd absolute and clean: Chdir with a relative directory joins
+// it to the current one instead of storing it verbatim (after cd("tmp") every
+// relative path would resolve to "tmp/…", which lies under no mount).
+func virtualCwdStaysAbsolute(c *core.Ctx) {
+	p := c.P
+	ros := p.Pkg("os")
+	vT := core.MustType(ros, "VirtualOS")
+	ci := fieldIdxByName(vT, "cwd")
+	if ci < 0 {
+		core.Undecidedf("VirtualOS.cwd not found")
+	}
+	n := 0
+	for _, fn := range repoFns(p, "os") {
+		if fn.Signature.Recv() == nil || core.NamedOf(fn.Signature.Recv().Type()) != vT {
+			continue
+		}
+		for _, b := range fn.Blocks {
+			for _, in := range b.Instrs {
+				s, ok := in.(*ssa.Store)
+				if !ok {
+					continue
+				}
+				fa, ok := s.Addr.(*ssa.FieldAddr)
+				if !ok || fa.Field != ci || core.NamedOf(fa.X.Type()) != vT {
+					continue
+				}
+				n++
+				okv := true
+				for _, o := range core.Origins(s.Val) {
+					cal := core.CalleeOfValue(o)
+					if cal == nil || cal.Pkg == nil || (cal.Pkg.Pkg.Path() != "path/filepath" && cal.Pkg.Pkg.Path() != "path") || (cal.Name() != "Clean" && cal.Name() != "Join") {
+						okv = false
+					}
+				}
+				c.Check(okv, core.SSAName(fn)+"|cwd-absolute-and-clean", p.Pos(s.Pos()),
+					fn.Name()+" stores a joined / cleaned path as the working directory"+ifs(!okv, ": it stores its argument verbatim, so a relative directory makes every later relative path resolve outside all mounts"))
+			}
+		}
+	}
+	if n == 0 {
+		core.Undecidedf("no VirtualOS method sets cwd")
+	}
+	c.Stat("cwd_stores", n)
+}
+
+// ---------------------------------------------------------------------------
+// importRootFixedAtConstruction: the directory a LocalImporter loads modules
+// from is made absolute when the importer is built.  A relative root is
+// otherwise resolved again at every import against the working directory of
+// that moment, which a script may have changed (os.chdir): the import then
+// loads a file from outside the configured root.
+func importRootFixedAtConstruction(c *core.Ctx) {
+	p := c.P
+	ip := p.Pkg("importer")
+	liT := core.MustType(ip, "LocalImporter")
+	si := fieldIdxByName(liT, "sourceDir")
+	if si < 0 {
+		core.Undecidedf("LocalImporter.sourceDir not found")
+	}
+	n := 0
+	for _, fn := range repoFns(p, "importer") {
+		for _, b := range fn.Blocks {
+			for _, in := range b.Instrs {
+				s, ok := in.(*ssa.Store)
+				if !ok {
+					continue
+				}
+				fa, ok := s.Addr.(*ssa.FieldAddr)
+				if !ok || fa.Field != si || core.NamedOf(fa.X.Type()) != liT {
+					continue
+				}
+				n++
+				abs := core.DependsOn(s.Val, func(w ssa.Value) bool {
+					cal := core.CalleeOfValue(w)
+					if cal == nil {
+						if ex, ok := w.(*ssa.Extract); ok {
+							cal = core.CalleeOfValue(ex.Tuple)
+						}
+					}
+					return cal != nil && cal.Pkg != nil && cal.Pkg.Pkg.Path() == "path/filepath" && cal.Name() == "Abs"
+				})
+				c.Check(abs, core.SSAName(fn)+"|import-root-absolute", p.Pos(s.Pos()),
+					fn.Name()+" stores the import root as an absolute path"+ifs(!abs, ": a relative root is resolved again on every import, against a working directory the script may have changed"))
+			}
+		}
+	}
+	if n == 0 {
+		core.Undecidedf("nothing sets LocalImporter.sourceDir")
+	}
+	c.Stat("import_root_stores", n)
+}
+
+// ---------------------------------------------------------------------------
+// operandsCompiledInSourceOrder: the operands of an expression are evaluated
+// left to right, so a compile function compiles them in source order: the
+// left operand before the right one, the start of a slice before its stop,
+// the container before the index.  (Where the VM instruction wants another
+// order on the stack, the values are swapped after both were computed.)
+var orderedAccessors = [][2]string{{"Left", "Right"}, {"FromIndex", "ToIndex"}, {"Left", "Index"}, {"Condition", "Consequence"}}
+
+func operandsCompiledInSourceOrder(c *core.Ctx) {
+	p := c.P
+	cp := p.Pkg("compiler")
+	compT := core.MustType(cp, "Compiler")
+	dispatch := core.Method(compT, "compile")
+	if dispatch == nil {
+		core.Undecidedf("Compiler.compile not found")
+	}
+	disp := p.SSAFunc(dispatch)
+	n := 0
+	for _, fn := range repoFns(p, "compiler") {
+		// compile(x.<Accessor>()) sites, by accessor name and receiver
+		type site struct {
+			in   ssa.Instruction
+			recv ssa.Value
+		}
+		sites := map[string][]site{}
+		for _, b := range fn.Blocks {
+			for _, in := range b.Instrs {
+				ci, ok := in.(ssa.CallInstruction)
+				if !ok || ci.Common().StaticCallee() != disp || len(ci.Common().Args) < 2 {
+					continue
+				}
+				for _, o := range core.Origins(ci.Common().Args[1]) {
+					if mi, ok := o.(*ssa.MakeInterface); ok {
+						o = mi.X
+					}
+					if ch, ok := o.(*ssa.ChangeInterface); ok {
+						o = ch.X
+					}
+					call, ok := o.(*ssa.Call)
+					if !ok {
+						continue
+					}
+					name := ""
+					var recv ssa.Value
+					if call.Call.IsInvoke() {
+						name, recv = call.Call.Method.Name(), call.Call.Value
+					} else if cal := call.Call.StaticCallee(); cal != nil && cal.Signature.Recv() != nil && len(call.Call.Args) > 0 {
+						name, recv = cal.Name(), call.Call.Args[0]
+					}
+					if name != "" {
+						sites[name] = append(sites[name], site{in, recv})
+					}
+				}
+			}
+		}
+		// an operand is compiled once on any path: compiling it again evaluates it again
+		twice := map[string]bool{}
+		var accNames []string
+		for name := range sites {
+			accNames = append(accNames, name)
+		}
+		sort.Strings(accNames)
+		for _, name := range accNames {
+			ss := sites[name]
+			for i := range ss {
+				for j := range ss {
+					if i != j && (ss[i].recv == ss[j].recv || core.SameStorage(ss[i].recv, ss[j].recv)) && instrReaches(ss[i].in, ss[j].in) && !twice[name] {
+						twice[name] = true
+						n++
+						c.Check(false, core.SSAName(fn)+"|"+name+"-compiled-once", p.Pos(ss[j].in.Pos()),
+							fn.Name()+" compiles "+name+"() twice on one path: the operand is evaluated twice (its side effects happen twice, and the two evaluations may differ)")
+					}
+				}
+			}
+		}
+		for _, pair := range orderedAccessors {
+			if twice[pair[0]] || twice[pair[1]] {
+				continue
+			}
+			for _, a := range sites[pair[0]] {
+				for _, b := range sites[pair[1]] {
+					if a.recv != b.recv && !core.SameStorage(a.recv, b.recv) {
+						continue
+					}
+					n++
+					bad := a.in != b.in && instrReaches(b.in, a.in) && !instrReaches(a.in, b.in)
+					c.Check(!bad, core.SSAName(fn)+"|"+pair[0]+"-before-"+pair[1], p.Pos(a.in.Pos()),
+						fn.Name()+" compiles "+pair[0]+"() before "+pair[1]+"() (operands are evaluated in source order)")
+				}
+			}
+		}
+	}
+	c.Stat("ordered_operand_pairs", n)
+}
+
+// instrReaches: there is a path on which a executes before b.
+func instrReaches(a, b ssa.Instruction) bool {
+	if a.Block() == b.Block() {
+		for _, in := range a.Block().Instrs {
+			if in == a {
+				return true
+			}
+			if in == b {
+				break
+			}
+		}
+	}
+	seen := map[*ssa.BasicBlock]bool{}
+	var walk func(x *ssa.BasicBlock) bool
+	walk = func(x *ssa.BasicBlock) bool {
+		for _, s := range x.Succs {
+			if s == b.Block() {
+				return true
+			}
+			if !seen[s] {
+				seen[s] = true
+				if walk(s) {
+					return true
+				}
+			}
+		}
+		return false
+	}
+	return walk(a.Block())
+}
